@@ -71,12 +71,7 @@ func parserRequestURL(c *Client, req *Request) error {
 	}
 
 	// Set path parameters from the request and client.
-	req.path.VisitAll(func(key, val string) {
-		uri = strings.ReplaceAll(uri, ":"+key, val)
-	})
-	c.path.VisitAll(func(key, val string) {
-		uri = strings.ReplaceAll(uri, ":"+key, val)
-	})
+	uri = replacePathParams(uri, *req.path, *c.path)
 
 	// Set the URI in the raw request.
 	req.RawRequest.SetRequestURI(uri)
@@ -100,6 +95,32 @@ func parserRequestURL(c *Client, req *Request) error {
 	req.RawRequest.URI().SetHash(hashSplit[1])
 
 	return nil
+}
+
+// replacePathParams substitutes every ":name" in uri in a single pass. The longest matching
+// name wins, and for equal names the earlier map (the request before the client). Substituted
+// values are not scanned again, so the result does not depend on map iteration order.
+func replacePathParams(uri string, params ...PathParam) string {
+	var sb strings.Builder
+	for i := 0; i < len(uri); i++ {
+		if uri[i] == ':' {
+			name, val, found := "", "", false
+			for _, m := range params {
+				for k, v := range m {
+					if k != "" && strings.HasPrefix(uri[i+1:], k) && (!found || len(k) > len(name)) {
+						name, val, found = k, v, true
+					}
+				}
+			}
+			if found {
+				sb.WriteString(val)
+				i += len(name)
+				continue
+			}
+		}
+		sb.WriteByte(uri[i])
+	}
+	return sb.String()
 }
 
 // parserRequestHeader merges client and request headers, and sets headers automatically based on the request data.
